@@ -133,7 +133,7 @@ func newGovWorld(r *simkit.Run, p govParams) *govWorld {
 	}
 	initialEon := uint64(r.C.Intn(4, "initial-eon"))
 	var forks *app.ForkHeights
-	switch r.C.Intn(4, "forks") {
+	switch r.C.Intn(6, "forks") {
 	case 0:
 		forks = app.NewForkHeightsAllDisabled()
 	case 1:
@@ -142,6 +142,13 @@ func newGovWorld(r *simkit.Run, p govParams) *govWorld {
 		forks = &app.ForkHeights{CheckInUpdateNew: app.ForkHeight{Enabled: true, Height: int64(r.C.Range(1, 12, "fork-h"))}}
 	case 3:
 		forks = nil
+	case 4:
+		// genesis file written by an older release: only the legacy field is set
+		h := int64(r.C.Range(0, 12, "legacy-fork-h"))
+		forks = &app.ForkHeights{CheckInUpdate: &h}
+	case 5:
+		h := int64(r.C.Range(0, 12, "legacy-fork-h"))
+		forks = &app.ForkHeights{CheckInUpdate: &h, CheckInUpdateNew: app.ForkHeight{Enabled: r.C.Bool("fork-enabled"), Height: int64(r.C.Range(1, 12, "fork-h"))}}
 	}
 	nv := r.C.Range(1, 4, "genesis-validators")
 	w.chain.InitChain(gk, uint64(th), initialEon, forks, simtm.GenesisValidators(nv))
